@@ -355,6 +355,7 @@ static int g_policy; /* 0 rand-sticky, 1 pct, 2 round-robin-ish */
 static int g_stick = 70;
 static int g_spin_limit = 80;
 static int g_fair_run = 3000;
+static int g_long_stalls;
 static FILE* g_dummy;
 /* guide: run the named thread until one of its steps changes tracked memory */
 #define GUIDE_ENV (-1000)
@@ -688,6 +689,12 @@ static int point(const char* k, const void* addrp, size_t size, int iswrite, int
   finish_step(s);
   s->quiet_points++;
   if (s->quiet_points > g_spin_limit && !s->yielding) {
+    if (g_long_stalls > 0 && --g_long_stalls == 0) {
+      /* the long stalls of this execution are used up: back to the ordinary limits (a run that keeps
+         every spin that long exhausts the step budget without being stuck) */
+      g_spin_limit = 80;
+      g_fair_run = 3000;
+    }
     /* busy-waiting without progress: let the others run until something changes */
     s->yielding = Y_SPIN;
     s->yield_epoch = g_epoch;
@@ -786,6 +793,10 @@ static void end_run(const char* why) {
   }
   g_on = 0;
   if (!strcmp(why, "quiescent") && vrt_on_quiescent) vrt_on_quiescent();
+  if (strcmp(why, "end"))
+    for (int i = 0; i < g_nthr; i++) /* diagnosis of a stuck / over-budget run */
+      buf_printf("{\"i\":%ld,\"k\":\"note\",\"thr\":%d,\"alive\":%d,\"yielding\":%d,\"quiet\":%ld,\"prio\":%d,\"spin_limit\":%d}\n",
+                 g_evno++, i, g_thr[i].alive, g_thr[i].yielding, g_thr[i].quiet_points, g_thr[i].prio, g_spin_limit);
   buf_printf("{\"i\":%ld,\"k\":\"%s\",\"points\":%ld}\n", g_evno++, why, g_points);
   flush_trace();
   write_picks();
@@ -852,6 +863,7 @@ void vrt_init(void) {
   if (long_stall) {
     g_spin_limit = 30000;
     g_fair_run = 60000;
+    g_long_stalls = 3;
   }
   g_fair_run = (int)vrt_getenv_int("VRT_FAIR_RUN", g_fair_run);
   g_env_pct = (int)vrt_getenv_int("VRT_ENV_PCT", 3);
